@@ -63,6 +63,26 @@ func siblingChecksFrom(p *load.Prog, r *report.Report, prop string, entries []*s
 			reach[g] = true
 		}
 	}
+	// the final conditional subtraction of every reachable primitive, checked on each file alone
+	nt := 0
+	for _, x := range []struct {
+		pkg *ssa.Package
+		m   *sibling.Modulus
+	}{{p.Field, mp}, {p.Scalar, mn}} {
+		for _, mem := range x.pkg.Members {
+			fn, ok := mem.(*ssa.Function)
+			if !ok || !absint.IsFiatLeaf(fn) || !reach[fn] {
+				continue
+			}
+			applies, good, pos, msg := sibling.TailOK(fn, x.m)
+			if !applies {
+				continue
+			}
+			nt++
+			r.Check(good, prop+".tail", x.pkg.Pkg.Name()+"."+fn.Name(), p.Pos(pos), "ends with the five-step subtraction of the modulus and four conditional moves on its borrow", "generated primitive tampered: "+msg)
+		}
+	}
+	r.Analysed["montgomery_tails_checked"] = nt
 	n := 0
 	for _, pair := range sibling.Pairs(p.Field, p.Scalar) {
 		fa, fb := pair[0], pair[1]
